@@ -41,7 +41,11 @@ RULE = ("each case = one configuration file run through pandora.main, an indepen
         "matching cost sad/ssd/census/zncc, optional cbca, 0..3 confidence steps (suffixed names), invalid_disparity "
         "in {default, -5, 'NaN', nan}, optional refinement / filter / validation (+ interpolation, suffixed) / "
         "trailing filter / multiscale.  A case is non-trivial when main accepted the configuration and wrote files; "
-        "distinct by (pipeline step names and methods, interval kind, bands, invalid_disparity)")
+        "distinct by (pipeline step names and methods, interval kind, bands, invalid_disparity).  Separate stream for the JSON "
+        "text (not counted as cases; counters json_*): random configuration-like values of the JSON subset (depth <= 4, ints up "
+        "to 1e20, floats whose repr has no exponent, NaN / inf, strings of printable ASCII without quote / backslash), "
+        "json.dumps compact and indent=2 against the model's print, json.loads against the model's parse, and two malformed "
+        "neighbours (a character deleted / inserted / doubled, or truncation) on which json.loads and the model's parser must agree")
 ASSUMES = [
     "GeoTIFF encoding / decoding by rasterio + GDAL is outside the model: 'write then read returns the array, dtype, "
     "descriptions, crs, transform' is sampled on every file of every case, not proved",
@@ -774,6 +778,12 @@ def run(ctx):
         "documented ones up to order, the six products go to the root of the output directory (vm_compute, Props/C19.v)",
         "cfg_path_ok otd = true: config.json goes to ./cfg (vm_compute)",
         "classes_wf classes = true (vm_compute): the prologues of the regenerated step classes allow C05's idempotence",
+        "confidence_wf classes = true (vm_compute): in every regenerated class of the cost_volume_confidence kind `indicator` is "
+        "not the method key, no prologue operation tests or converts it, the schema requires it and takes any string",
+        "classes_scalar classes = true (vm_compute): no schema entry of a regenerated step class accepts a dictionary, every "
+        "default written by a prologue is a scalar that update_conf leaves alone",
+        "defs_wf gen_defs = true (vm_compute): the regenerated default input section is {input: {left: scalars, right: scalars}} "
+        "and no entry of the six input schemas check_input_section can build accepts a dictionary",
     ]
     ctx.notes.append("observation O3: cost_volume_confidence_run overwrites the (undocumented) `indicator` key of its step with "
                      "the suffix of the step name, so cfg/config.json holds the configuration as run, not check_conf's output "
